@@ -14,7 +14,7 @@ import (
 func init() { register("C10", checkC10) }
 
 func checkC10(c *an.Ctx) {
-	c.Rule("C10.1", "variable chain (E5): at every job the template variables are layered runner (= configuration + --set + built-ins) < task < stage; --set is applied to the loaded configuration's container after Load; Root, TempDir, Args, ArgsList are written into that base container; ARGS comes from Args")
+	c.Rule("C10.1", "variable chain (E5): at every job the template variables are layered runner (= configuration + --set + built-ins) < task < stage; --set is applied to the loaded configuration's container after Load; Root, TempDir, Args, ArgsList are written into that base container; ARGS comes from Args and survives every replacement of the runner's env")
 	c.Rule("C10.2", "configuration variables survive loading (E5): Config.merge has an explicit flow src.Variables → dst.Variables (mergo.Merge never overwrites the pre-populated field), and buildFromDefinition merges the definition's variables over the defaults")
 	c.Rule("C10.3", "`--` (E2/E4): taskArgs returns the unchanged tail of the arguments after `--`; every target loop leaves the loop on `--` before dispatching anything")
 	c.Rule("C10.5", "late resolution (E5 provenance): a loop that renders the values of a variable set in place (ranges over Container.Map(), RenderString on the value, Set of the result) works only on a container that is the fresh result of a Merge — the layered set built for one compilation — never on a container that is held in a field of the runner or the configuration: resolving a lower level alone would freeze references to names that a task or a stage defines later")
@@ -225,6 +225,66 @@ func baseVariables(c *an.Ctx, r *runnerRoles, rule string) {
 			}
 		})
 		c.Check(good, rule, an.Short(ntr)+":ARGS", ntr.Pos(), "$ARGS is the runner variable Args", "the runner env does not define ARGS from the runner variable Args")
+		// … and stays there for every later target: any other function that replaces the runner's env stores a
+		// container derived from the one it replaces (With/Merge on it) or one that defines ARGS again
+		var derived func(v ssa.Value, depth int) bool
+		derived = func(v ssa.Value, depth int) bool {
+			if depth > 4 {
+				return false
+			}
+			for _, src := range an.Sources(v) {
+				if an.FieldProv(src) == "TaskRunner.env" {
+					return true
+				}
+				if mi, ok := src.(*ssa.MakeInterface); ok && derived(mi.X, depth+1) {
+					return true
+				}
+				call, ok := src.(*ssa.Call)
+				if !ok {
+					continue
+				}
+				cc := call.Common()
+				if cc.IsInvoke() {
+					if derived(cc.Value, depth+1) {
+						return true
+					}
+					continue
+				}
+				if len(cc.Args) > 0 && an.InModule(cc.StaticCallee()) && derived(cc.Args[0], depth+1) {
+					return true
+				}
+			}
+			return false
+		}
+		for _, fn := range p.Funcs {
+			if fn == ntr || !an.InModule(fn) || fn.Blocks == nil {
+				continue
+			}
+			an.EachInstr(fn, func(in ssa.Instruction) {
+				st, ok := in.(*ssa.Store)
+				if !ok {
+					return
+				}
+				fa, ok := st.Addr.(*ssa.FieldAddr)
+				if !ok || an.TypeField(fa) != "TaskRunner.env" {
+					return
+				}
+				if fresh, _ := an.FreshBase(fa.X); fresh {
+					return // a runner under construction
+				}
+				keeps := derived(st.Val, 0)
+				if !keeps {
+					for _, ch := range chainCfg(p).Chains(st.Val) {
+						for _, l := range ch {
+							if strings.Contains(l.Label, "ARGS=Get(TaskRunner.variables,\"Args\")") {
+								keeps = true
+							}
+						}
+					}
+				}
+				c.Check(keeps, rule, an.Short(fn)+":replaces(TaskRunner.env)", st.Pos(), "the new runner env is derived from the old one (ARGS stays defined)", an.Short(fn)+" replaces the runner's env by a container that is not derived from it: $ARGS, defined once at construction, is gone for everything that runs afterwards")
+			})
+		}
 	}
 	// --set and Root / TempDir
 	// (the Set call is found anywhere in cmd/taskctl: fed by StringSlice("set") through helpers, after Load on every way in)
